@@ -523,3 +523,40 @@ func localClosure(info *types.Info, defs map[types.Object][]ast.Expr, e ast.Expr
 	}
 	return nil
 }
+
+// calleeSource returns the body of the function a call invokes when its source is at hand — a function
+// or method declared in the module, or a local closure — together with the binding of its parameters
+// (and receiver) to the argument expressions of the call.
+func (c *Ctx) calleeSource(info *types.Info, defs map[types.Object][]ast.Expr, call *ast.CallExpr) (body *ast.BlockStmt, cinfo *types.Info, bind map[types.Object]ast.Expr) {
+	bind = map[types.Object]ast.Expr{}
+	if lit := localClosure(info, defs, call.Fun); lit != nil {
+		if _, isLit := ast.Unparen(call.Fun).(*ast.FuncLit); !isLit || true {
+			for i, id := range flattenParams(lit.Type.Params) {
+				if id != nil && i < len(call.Args) {
+					bind[info.ObjectOf(id)] = call.Args[i]
+				}
+			}
+			return lit.Body, info, bind
+		}
+	}
+	f := callee(info, call)
+	if f == nil {
+		return nil, nil, nil
+	}
+	fd, p := c.DeclOf(f)
+	if fd == nil || fd.Body == nil {
+		return nil, nil, nil
+	}
+	cinfo = p.TypesInfo
+	for i, id := range flattenParams(fd.Type.Params) {
+		if id != nil && i < len(call.Args) {
+			bind[cinfo.ObjectOf(id)] = call.Args[i]
+		}
+	}
+	if fd.Recv != nil && len(fd.Recv.List) == 1 && len(fd.Recv.List[0].Names) == 1 {
+		if sel, ok := ast.Unparen(call.Fun).(*ast.SelectorExpr); ok {
+			bind[cinfo.ObjectOf(fd.Recv.List[0].Names[0])] = sel.X
+		}
+	}
+	return fd.Body, cinfo, bind
+}
